@@ -81,9 +81,86 @@ def stress_images(tier, rng):
         out.append(("ridges", (np.minimum(r, a - r) * 500 + ((c * 37) % 101) + 0.001 * (r * b + c)).astype(np.float32)))
         noise = rng.permutation(a * b).reshape(a, b).astype(np.float32)
         out.append(("noise", noise))
+        out.append(("serpentine", serpentine(a, b, rng)))
+        out.append(("serpentine_T", np.ascontiguousarray(serpentine(b, a, rng).T)))
         sm = (np.sin(r / 7.0) + np.cos(c / 5.0)) * 1000
         out.append(("smooth", (sm + 0.0001 * noise).astype(np.float32)))
     return out
+
+
+def serpentine(a, b, rng):
+    """one ridge winding through the whole image (ridge rows 1,3,5,... joined alternately at the right and left end):
+    the ascent path is ~ a*b/2 steps long, far longer than a + b, and crosses every thread's block"""
+    im = rng.permutation(a * b).reshape(a, b).astype(np.float64)          # distinct background values < a*b
+    k = a * b + 10
+    rows = list(range(1, a - 1, 2))
+    for n, r in enumerate(rows):
+        cols = range(1, b - 1) if n % 2 == 0 else range(b - 2, 0, -1)
+        for c in cols:
+            im[r, c] = k
+            k += 1
+        if n + 1 < len(rows):
+            cend = b - 2 if n % 2 == 0 else 1
+            im[r + 1, cend] = k
+            k += 1
+    return im.astype(np.float32) if k < 2 ** 24 else im.astype(np.float32)
+
+
+def gap_patterns(tier, rng):
+    """sparse patterns with gaps (empty rows, row starts right of the previous row's end, isolated pixels): tie-free
+    random values; expectation from the abstract definition (c13_replay.expected_sparse)"""
+    out = []
+    n = 300 if tier == "quick" else 3000
+    for t in range(n):
+        ns, nf = int(rng.integers(3, 9)), int(rng.integers(3, 9))
+        vals = rng.permutation(ns * nf).reshape(ns, nf).astype(np.float32) + 1
+        kind = t % 4
+        m = np.zeros((ns, nf), bool)
+        if kind == 0:                       # random fill
+            m = rng.random((ns, nf)) < rng.choice([0.2, 0.5, 0.8])
+        elif kind == 1:                     # bands: occupied rows separated by empty rows, staircase column runs
+            c = 0
+            for r in range(0, ns, int(rng.integers(2, 4))):
+                w = int(rng.integers(1, 4))
+                m[r, c:min(nf, c + w)] = True
+                c = min(nf - 1, c + w)
+        elif kind == 2:                     # every other row full
+            m[::2, :] = True
+        else:                               # staircase touching only at corners, with an empty row in between
+            for r in range(ns):
+                if r % 3 != 1:
+                    c0 = min(nf - 1, (r * 2) % nf)
+                    m[r, c0:min(nf, c0 + 2)] = True
+        if m.sum() >= 1:
+            out.append((vals, m))
+    return out
+
+
+def run_gap_patterns(chk, tier, mods):
+    cImageD11, sparseframe = mods
+    rng = np.random.default_rng(common.seed() + 1313)
+    n = 0
+    for vals, m in gap_patterns(tier, rng):
+        ns, nf = vals.shape
+        es = c13_replay.expected_sparse(vals.ravel().tolist(), ns, nf, m)
+        if es is None:
+            continue
+        elab, en = es
+        ii, jj = np.nonzero(m)
+        v = vals[m]
+        sl = np.full(len(v), c13_replay.POISON, np.int32)
+        mv = np.full(len(v), -123.0, np.float32)
+        imv = np.full(len(v), c13_replay.POISON, np.int32)
+        n2 = cImageD11.sparse_localmaxlabel(v, ii.astype(np.uint16), jj.astype(np.uint16), mv, imv, sl)
+        n += 1
+        chk.case(("gap", vals.tobytes(), m.tobytes()))
+        chk.traces += 1
+        if n2 != en or sl.tolist() != elab:
+            chk.violation("sparse_localmaxlabel on a pattern with gaps: labels %s (n=%d), steepest-ascent definition %s (n=%d)" % (
+                sl.tolist(), n2, elab, en), {"gap_pattern": {"img": vals.tolist(), "mask": m.astype(int).tolist()}})
+            if len(chk.violations) > 10:
+                break
+    chk.notes["sparse_gap_patterns"] = n
 
 
 def stress(chk, tier, cImageD11):
@@ -238,6 +315,7 @@ def run(tier, replay=None):
         chk.add_tlc("LocalMaxPar repaired ordering N=8 NT=3", r)
         if r.violated:
             raise common.MachineryError("repaired ordering violates %s" % r.violated)
+    run_gap_patterns(chk, tier, mods)
     stress(chk, tier, cImageD11)
     chk.exhaustive = False
     if tier == "thorough":
@@ -258,6 +336,9 @@ def run_replay(chk, mods, path):
         chk.sample(case)
     elif case.get("asan"):
         replay_asan(chk, case.get("near_cases", []), "replay")
+    elif "gap_pattern" in case:
+        run_gap_patterns(chk, chk.tier, mods)
+        chk.sample({"replayed": "gap patterns"})
     else:
         stress(chk, chk.tier, mods[0])
         chk.sample({"replayed": "stress"})
